@@ -9,8 +9,21 @@ use crate::Explored;
 use serde_json::json;
 
 pub fn explore(opts: &Opts) -> Explored {
-    let space = matmul_space(opts.tier);
-    let variants: Vec<u64> = vec![opts.seed % 3, (opts.seed + 1) % 3];
+    let mut space = matmul_space(opts.tier);
+    // longer inner dimensions and wider outputs than the exhaustive part, for every transpose combination
+    for inner in [4usize, 5, 7, 8, 9, 12, 16, 17, 33] {
+        for (rows, cols) in [(1usize, 1usize), (2, 3), (3, 1), (5, 4)] {
+            for ta in [false, true] {
+                for tb in [false, true] {
+                    let am = if ta { vec![inner, rows] } else { vec![rows, inner] };
+                    let bm = if tb { vec![cols, inner] } else { vec![inner, cols] };
+                    space.push(MatCfg { a: am.clone(), ta, b: bm.clone(), tb, c: None });
+                    space.push(MatCfg { a: [vec![2], am.clone()].concat(), ta, b: bm.clone(), tb, c: Some(vec![cols]) });
+                }
+            }
+        }
+    }
+    let variants: Vec<u64> = vec![opts.seed % 3, (opts.seed + 1) % 3, 3, 4];
     let local = par(opts, space.len(), |i, l| {
         let c = &space[i];
         l.states += 1;
